@@ -428,4 +428,169 @@ theorem mutationsLoop_spec (n : Nat) (hn : n < 2 ^ 63) (g0 : Nat → D) : ∀ (m
       exact inv'
 
 end BM
+
+/-! ### the tracked proofs -/
+
+section BR
+variable {D : Type} [DecidableEq D] (H : D → D → D)
+
+/-- replacing, in a path valid for `g0`, every digest by the one in the map gives the path valid for `g`, provided
+    map-or-old is the current sibling root at every level; the flag says whether anything changed -/
+theorem replace_sibPath (g0 g : Nat → D) (m : AMap D) : ∀ (u l j : Nat),
+    (∀ s, s < u → (m.get? (nodeIdx (l + s) (sibBlk (j / 2 ^ s)))).getD (sub H g0 (l + s) (sibBlk (j / 2 ^ s)))
+        = sub H g (l + s) (sibBlk (j / 2 ^ s))) →
+    replaceFromMap m true false (sibPath H g0 l u j) ((List.range u).map fun t => nodeIdx (l + t) (sibBlk (j / 2 ^ t)))
+      = (sibPath H g l u j, decide (sibPath H g l u j ≠ sibPath H g0 l u j)) := by
+  intro u
+  induction u with
+  | zero => intro l j _; simp [sibPath, replaceFromMap]
+  | succ u ih =>
+    intro l j h
+    have e1 : ∀ s, l + 1 + s = l + (s + 1) := by intro s; omega
+    have e2 : ∀ s, j / 2 / 2 ^ s = j / 2 ^ (s + 1) := by
+      intro s; rw [Nat.div_div_eq_div_mul, ← Nat.pow_succ']
+    have h0 := h 0 (by omega)
+    simp only [Nat.add_zero, Nat.pow_zero, Nat.div_one] at h0
+    have ih' := ih (l + 1) (j / 2) (by
+      intro s hs
+      rw [e1, e2]
+      exact h (s + 1) (by omega))
+    have hr : (List.range (u + 1)).map (fun t => nodeIdx (l + t) (sibBlk (j / 2 ^ t)))
+        = nodeIdx l (sibBlk j) :: (List.range u).map (fun t => nodeIdx (l + 1 + t) (sibBlk (j / 2 / 2 ^ t))) := by
+      rw [List.range_succ_eq_map, List.map_cons, List.map_map]
+      simp only [Nat.add_zero, Nat.pow_zero, Nat.div_one, List.cons.injEq, true_and]
+      apply List.map_congr_left
+      intro t _
+      simp only [Function.comp, Nat.succ_eq_add_one]
+      rw [e1, e2]
+    rw [hr]
+    simp only [sibPath]
+    rw [replaceFromMap, ih']
+    cases hget : m.get? (nodeIdx l (sibBlk j)) with
+    | none =>
+      rw [hget] at h0
+      simp only [Option.getD_none] at h0
+      simp [h0]
+    | some v =>
+      rw [hget] at h0
+      simp only [Option.getD_some] at h0
+      subst h0
+      by_cases hd : sub H g0 l (sibBlk j) = sub H g l (sibBlk j)
+      · simp [hd]
+      · have hd' : ¬ sub H g l (sibBlk j) = sub H g0 l (sibBlk j) := fun h => hd h.symm
+        simp [hd, hd']
+
+/-- the per-proof loop: every tracked path valid at the start becomes the path valid at the end, and exactly the
+    changed ones are reported -/
+theorem batchReplaceLoop_spec {n : Nat} {g0 g : Nat → D} {S : List Nat} {m : AMap D} (inv : Inv H n g0 g S m)
+    (hn : n < 2 ^ 63) : ∀ (lis : List Nat) (i0 : Nat), (∀ i ∈ lis, i < n) →
+    batchReplaceLoop m false (lis.map (authPathOf H g0 n)) lis i0
+      = some (lis.map (authPathOf H g n),
+          ((List.range lis.length).filter fun k =>
+            decide (authPathOf H g n (lis.getD k 0) ≠ authPathOf H g0 n (lis.getD k 0))).map (· + i0)) := by
+  intro lis
+  induction lis with
+  | nil => intro i0 _; simp [batchReplaceLoop]
+  | cons τ rest ih =>
+    intro i0 hlis
+    have hτ : τ < n := hlis τ (by simp)
+    have hh : (locate n τ).1 < 63 := by
+      have h1 := two_pow_height_le n τ hτ
+      by_contra hc
+      have : 2 ^ 63 ≤ 2 ^ (locate n τ).1 := Nat.pow_le_pow_right (by omega) (by omega)
+      omega
+    have hlen : (authPathOf H g0 n τ).length = (locate n τ).1 := by unfold authPathOf; rw [sibPath_length]
+    have hidx := get_node_indices_spec τ (locate n τ).1 (by omega) (by omega)
+      (nodeIdx_lt_of_height n τ _ hτ hn (Nat.le_refl _))
+    have hrep := replace_sibPath H g0 g m (locate n τ).1 0 τ (by
+      intro s hs
+      rw [Nat.zero_add]
+      exact inv.sibling H hn τ s hτ hs)
+    simp only [Nat.zero_add] at hrep
+    simp only [List.map_cons]
+    rw [batchReplaceLoop, hlen, hidx]
+    simp only [Option.bind_eq_bind, Option.bind_some]
+    have hrep' : replaceFromMap m true false (authPathOf H g0 n τ)
+        ((List.range (locate n τ).1).map fun t => nodeIdx t (sibBlk (τ / 2 ^ t)))
+        = (authPathOf H g n τ, decide (authPathOf H g n τ ≠ authPathOf H g0 n τ)) := hrep
+    rw [hrep', ih (i0 + 1) (fun i hi => hlis i (by simp [hi]))]
+    simp only [Option.bind_some, Option.pure_def, Option.some.injEq, Prod.mk.injEq, true_and]
+    rw [List.length_cons, List.range_succ_eq_map, List.filter_cons, List.filter_map]
+    have hf : ((fun k => decide (authPathOf H g n ((τ :: rest).getD k 0) ≠ authPathOf H g0 n ((τ :: rest).getD k 0))) ∘ Nat.succ)
+        = fun k => decide (authPathOf H g n (rest.getD k 0) ≠ authPathOf H g0 n (rest.getD k 0)) := by
+      funext k; simp
+    rw [hf]
+    have hm : ((fun x => x + i0) ∘ Nat.succ) = fun x => x + (i0 + 1) := by
+      funext k; simp only [Function.comp, Nat.succ_eq_add_one]; omega
+    by_cases hc : authPathOf H g n τ = authPathOf H g0 n τ
+    · simp [hc, hm, List.map_map]
+    · simp [hc, hm, List.map_map]
+
+theorem nodup_rev (l : List Nat) (h : l.Nodup) : l.reverse.Nodup := by
+  unfold List.Nodup at *
+  exact List.pairwise_reverse.mpr (h.imp Ne.symm)
+
+omit [DecidableEq D] in
+theorem applyL_not_mem : ∀ (ms : List (Nat × D)) (g : Nat → D) (k : Nat), k ∉ ms.map (·.1) → applyL g ms k = g k := by
+  intro ms
+  induction ms with
+  | nil => intros; rfl
+  | cons p rest ih =>
+    intro g k hk
+    simp only [List.map_cons, List.mem_cons, not_or] at hk
+    show applyL (Function.update g p.1 p.2) rest k = g k
+    rw [ih _ k hk.2, Function.update_of_ne hk.1]
+
+omit [DecidableEq D] in
+theorem applyL_mem : ∀ (ms : List (Nat × D)) (g : Nat → D) (p : Nat × D), (ms.map (·.1)).Nodup → p ∈ ms →
+    applyL g ms p.1 = p.2 := by
+  intro ms
+  induction ms with
+  | nil => intro g p _ hp; simp at hp
+  | cons q rest ih =>
+    intro g p hnd hp
+    simp only [List.map_cons, List.nodup_cons] at hnd
+    show applyL (Function.update g q.1 q.2) rest p.1 = p.2
+    rcases List.mem_cons.mp hp with rfl | h
+    · rw [applyL_not_mem rest _ _ hnd.1, Function.update_self]
+    · exact ih _ p hnd.2 h
+
+omit [DecidableEq D] in
+/-- mutations of distinct leafs commute: the order of the batch does not matter -/
+theorem applyL_reverse (ms : List (Nat × D)) (g : Nat → D) (hnd : (ms.map (·.1)).Nodup) :
+    applyL g ms.reverse = applyL g ms := by
+  funext k
+  have hnd' : (ms.reverse.map (·.1)).Nodup := by rw [List.map_reverse]; exact nodup_rev _ hnd
+  by_cases hk : k ∈ ms.map (·.1)
+  · obtain ⟨p, hp, rfl⟩ := List.mem_map.mp hk
+    rw [applyL_mem ms g p hnd hp, applyL_mem ms.reverse g p hnd' (List.mem_reverse.mpr hp)]
+  · rw [applyL_not_mem ms g k hk, applyL_not_mem ms.reverse g k (by rw [List.map_reverse, List.mem_reverse]; exact hk)]
+
+/-- **`MmrAccumulator::batch_mutate_leaf_and_update_mps`** on the from-scratch accumulator of `g`, with distinct
+    in-range mutated leafs (any order) carrying their from-scratch paths and any in-range tracked leafs with their
+    from-scratch paths: the accumulator becomes the from-scratch accumulator of the mutated leaf list, every tracked
+    path becomes the from-scratch path, and exactly the changed ones are reported -/
+theorem batchMutateLeafAndUpdateMps_spec (g : Nat → D) (n : Nat) (ms : List (Nat × D)) (lis : List Nat)
+    (hlis : ∀ i ∈ lis, i < n) (hms : ∀ m ∈ ms, m.1 < n) (hnd : (ms.map (·.1)).Nodup) (hn : n < 2 ^ 63) :
+    Acc.batchMutateLeafAndUpdateMps H ⟨n, peaks H n g⟩ (lis.map (authPathOf H g n)) lis
+        (ms.map fun m => ⟨m.1, m.2, authPathOf H g n m.1⟩)
+      = some (⟨n, peaks H n (applyL g ms)⟩, lis.map (authPathOf H (applyL g ms) n),
+          (List.range lis.length).filter fun k =>
+            decide (authPathOf H (applyL g ms) n (lis.getD k 0) ≠ authPathOf H g n (lis.getD k 0))) := by
+  have hnd' : (ms.reverse.map (·.1)).Nodup := by rw [List.map_reverse]; exact nodup_rev _ hnd
+  obtain ⟨m', hloop, inv⟩ := mutationsLoop_spec H n hn g ms.reverse [] g [] (Inv.empty H n g)
+    (fun p hp => ⟨hms p (List.mem_reverse.mp hp), by simp⟩) hnd'
+  rw [applyL_reverse ms g hnd] at hloop inv
+  have hrep := batchReplaceLoop_spec H inv hn lis 0 hlis
+  have hall : lis.all (fun x => decide (x < n)) = true := by
+    rw [List.all_eq_true]; intro x hx; simpa using hlis x hx
+  unfold Acc.batchMutateLeafAndUpdateMps
+  simp only [List.length_map, ne_eq, not_true_eq_false, if_false, hall, Bool.not_true, Bool.false_eq_true,
+    ← List.map_reverse]
+  have hloop' : mutationsLoop H true n (ms.reverse.map fun m => ⟨m.1, m.2, authPathOf H g n m.1⟩) [] (peaks H n g)
+      = some (m', peaks H n (applyL g ms)) := hloop
+  rw [hloop']
+  simp only [Option.bind_eq_bind, Option.bind_some, hrep, Option.pure_def, Nat.add_zero, List.map_id']
+
+end BR
 end TF.MmrE
